@@ -190,42 +190,83 @@ func HarnessC08NamedScalarTypes() {
 	}
 }
 
-// HarnessC08ScriptToGo: To returns exactly the value when it is representable
-// in the target kind (truncation of unrepresentable values is unspecified).
+// HarnessC08ScriptToGo: To returns exactly the script value in the target
+// kind, or rejects it; it never hands Go a different number.
 func HarnessC08ScriptToGo() {
 	x := verifrt.Int64()
 	obj := &Int{value: x}
-	switch verifrt.Choose(6) {
+	var r any
+	var err error
+	var got int64
+	exact := true
+	k := verifrt.Choose(11)
+	switch k {
 	case 0:
-		r, err := (&Int8Converter{}).To(obj)
-		if err == nil && x >= -128 && x <= 127 {
-			verifrt.Reach("opt:int8")
-			verifrt.Assert(r == any(int8(x)), "representable-value-arrives-exactly")
+		r, err = (&Int8Converter{}).To(obj)
+		if v, ok := r.(int8); ok {
+			got = int64(v)
 		}
 	case 1:
-		r, err := (&Int32Converter{}).To(obj)
-		if err == nil && x >= -2147483648 && x <= 2147483647 {
-			verifrt.Assert(r == any(int32(x)), "representable-value-arrives-exactly")
+		r, err = (&Int16Converter{}).To(obj)
+		if v, ok := r.(int16); ok {
+			got = int64(v)
 		}
 	case 2:
-		r, err := (&Uint16Converter{}).To(obj)
-		if err == nil && x >= 0 && x <= 65535 {
-			verifrt.Assert(r == any(uint16(x)), "representable-value-arrives-exactly")
+		r, err = (&Int32Converter{}).To(obj)
+		if v, ok := r.(int32); ok {
+			got = int64(v)
 		}
 	case 3:
-		r, err := (&Uint64Converter{}).To(obj)
-		if err == nil && x >= 0 {
-			verifrt.Assert(r == any(uint64(x)), "representable-value-arrives-exactly")
+		r, err = (&Int64Converter{}).To(obj)
+		if v, ok := r.(int64); ok {
+			got = v
 		}
 	case 4:
-		r, err := (&Int64Converter{}).To(obj)
-		verifrt.Assert(err == nil && r == any(x), "representable-value-arrives-exactly")
+		r, err = (&IntConverter{}).To(obj)
+		if v, ok := r.(int); ok {
+			got = int64(v)
+		}
 	case 5:
-		r, err := (&IntConverter{}).To(obj)
-		verifrt.Assert(err == nil && r == any(int(x)), "representable-value-arrives-exactly")
+		r, err = (&Uint8Converter{}).To(obj)
+		if v, ok := r.(uint8); ok {
+			got = int64(v)
+		}
+	case 6:
+		r, err = (&Uint16Converter{}).To(obj)
+		if v, ok := r.(uint16); ok {
+			got = int64(v)
+		}
+	case 7:
+		r, err = (&Uint32Converter{}).To(obj)
+		if v, ok := r.(uint32); ok {
+			got = int64(v)
+		}
+	case 8:
+		r, err = (&Uint64Converter{}).To(obj)
+		if v, ok := r.(uint64); ok {
+			got, exact = int64(v), v <= 1<<63-1
+		}
+	case 9:
+		r, err = (&UintConverter{}).To(obj)
+		if v, ok := r.(uint); ok {
+			got, exact = int64(v), uint64(v) <= 1<<63-1
+		}
+	case 10:
+		r, err = (&ByteConverter{}).To(obj)
+		if v, ok := r.(byte); ok {
+			got = int64(v)
+		}
+	}
+	if err == nil {
+		verifrt.Reach("converted")
+		verifrt.Assert(exact && got == x, "script-int-arrives-exactly-or-is-rejected")
+	}
+	// values that fit are never rejected
+	if x >= 0 && x <= 127 {
+		verifrt.Assert(err == nil, "value-that-fits-every-kind-is-accepted")
 	}
 	// wrongly typed objects are rejected, not converted
-	_, err := (&Int64Converter{}).To(NewString("1"))
+	_, err = (&Int64Converter{}).To(NewString("1"))
 	verifrt.Assert(err != nil, "string-is-not-an-int")
 	_, err = (&BoolConverter{}).To(obj)
 	verifrt.Assert(err != nil, "int-is-not-a-bool")
